@@ -46,6 +46,8 @@ def run_world(bb, w, root, scratch):
     child.reset_root(root)
     os.chdir(root)
     for path, text in w.get("files", {}).items():
+        if path == w.get("path") and "script" in w:
+            text = child.step_text(w)        # the (possibly minimised) main script
         child._write_file(os.path.join(root, path), text.replace("<ROOT>", root).encode("latin-1"))
     if w.get("cwd"):
         os.makedirs(os.path.join(root, w["cwd"]), exist_ok=True)
